@@ -12,7 +12,8 @@
  * the input it was working on and forks a new worker for the rest.
  *
  * argv[1] = scratch file for the workers' stderr (sanitizer reports),
- * argv[2] = per-name CPU-time limit in seconds (default 2).
+ * argv[2] = per-name CPU-time limit in milliseconds (default 2000),
+ * argv[3] = give up after that many HANG verdicts (default 25): the rest is reported as SKIP.
  */
 #define _GNU_SOURCE
 #include <errno.h>
@@ -64,7 +65,7 @@ static void worker(int from, int wfd, int tmo)
 	FILE *out = fdopen(wfd, "w");
 	int i;
 
-	struct itimerval on = { { 0, 0 }, { tmo, 0 } }, off = { { 0, 0 }, { 0, 0 } };
+	struct itimerval on = { { 0, 0 }, { tmo / 1000, (tmo % 1000) * 1000 } }, off = { { 0, 0 }, { 0, 0 } };
 
 	/* CPU-time timer: a hang is an endless loop; wall-clock load must not matter */
 	signal(SIGPROF, on_alarm);
@@ -126,8 +127,10 @@ int main(int argc, char **argv)
 	size_t lsz = 0;
 	ssize_t n;
 	const char *errfile = argc > 1 ? argv[1] : "/dev/null";
-	int tmo = argc > 2 ? atoi(argv[2]) : 2;
+	int tmo = argc > 2 ? atoi(argv[2]) : 2000;
 	int next = 0;
+	int max_hangs = argc > 3 ? atoi(argv[3]) : 25;
+	int hangs = 0;
 	char **res;
 
 	outfp = stdout;
@@ -167,6 +170,12 @@ int main(int argc, char **argv)
 
 	while (next < nr) {
 		int pfd[2];
+
+		if (hangs >= max_hangs) {
+			/* the code under test loops on many inputs: do not spend hours on it */
+			res[next++] = strdup("SKIP");
+			continue;
+		}
 		pid_t pid;
 		FILE *in;
 		int status, idx;
@@ -205,8 +214,10 @@ int main(int argc, char **argv)
 		waitpid(pid, &status, 0);
 		if (next < nr) {
 			/* the worker died on names[next] */
-			if (WIFEXITED(status) && WEXITSTATUS(status) == 97)
+			if (WIFEXITED(status) && WEXITSTATUS(status) == 97) {
 				snprintf(buf, sizeof(buf), "HANG");
+				hangs++;
+			}
 			else {
 				char sum[512];
 
